@@ -1017,3 +1017,126 @@ pub fn run_tablefield(tier: &str, seed: u64) -> Sink {
     sink.s(json!({"c03_tablefield": {"generated": n}}));
     sink
 }
+
+/// C03 — ring 2 for Model/HangOp.lean `CallArg`: an argument of a multi-line argument list, with comments behind the
+/// argument and around its comma (or no comma: last argument); the bytes up to the next line must be the model's rendering.
+pub fn run_callarg(tier: &str, seed: u64) -> Sink {
+    let n = if tier == "thorough" { 30000 } else { 5000 };
+    let ctexts = ["c", "c  ", "", "é"];
+    let btexts = ["b", "b\nb", ""];
+    let parts = par_map(n, threads(), |i| {
+        let mut sink = Sink::default();
+        let mut r = Rng::new(seed.wrapping_mul(2749) ^ (i as u64) ^ 0xCA1);
+        let comment = |r: &mut Rng| -> (String, bool) {
+            if r.chance(1, 2) {
+                (format!("--{}", ctexts[r.below(ctexts.len())]), true)
+            } else {
+                let lvl = r.below(2);
+                let eqs = "=".repeat(lvl);
+                (format!("--[{}[{}]{}]", eqs, btexts[r.below(btexts.len())], eqs), false)
+            }
+        };
+        let same_line = |src: &mut String, r: &mut Rng, count: &mut usize| -> bool {
+            let mut open = true;
+            for _ in 0..r.below(3) {
+                if !open {
+                    break;
+                }
+                let (c, is_line) = comment(r);
+                src.push(' ');
+                src.push_str(&c);
+                *count += 1;
+                if is_line {
+                    open = false;
+                }
+            }
+            open
+        };
+        let has_sep = r.chance(3, 4);
+                let mut src = String::from("callee_name(\n\tvalue_name");
+        let mut count = 0;
+        let open = same_line(&mut src, &mut r, &mut count);
+        if has_sep {
+            if !open || r.chance(1, 4) {
+                src.push('\n');
+                for _ in 0..r.below(2) {
+                    let (c, is_line) = comment(&mut r);
+                    src.push('\t');
+                    src.push_str(&c);
+                    src.push_str(if is_line || r.chance(1, 2) { "\n" } else { " " });
+                    count += 1;
+                }
+                src.push('\t');
+            }
+            src.push(',');
+            same_line(&mut src, &mut r, &mut count);
+            src.push_str("\n\tsecond_argument\n)\n");
+        } else {
+            src.push_str("\n)\n");
+        }
+        if count == 0 {
+            return sink;
+        }
+        let mut c = cfg();
+        c.syntax = LuaVersion::Lua51;
+        let crlf = r.chance(1, 3);
+        c.line_endings = if crlf { LineEndings::Windows } else { LineEndings::Unix };
+        if !parses(&src, c.syntax) {
+            return sink;
+        }
+        let toks = match crate::lexutil::tokens(&src, c.syntax) {
+            Some(t) => t,
+            None => return sink,
+        };
+        let is_ident = |t: &Token, name: &str| matches!(t.token_type(), TokenType::Identifier { identifier } if identifier.as_str() == name);
+        let vi = match toks.iter().position(|t| is_ident(t, "value_name")) { Some(k) => k, None => return sink };
+        let ni = match (vi + 1..toks.len()).find(|&k| significant(&toks[k])) { Some(k) => k, None => return sink };
+        let line_end = |from: usize, to: usize| -> usize {
+            let mut k = from;
+            while k < to {
+                let is_nl = matches!(toks[k].token_type(), TokenType::Whitespace { characters } if characters.contains('\n'));
+                k += 1;
+                if is_nl {
+                    break;
+                }
+            }
+            k.min(to)
+        };
+        let vt_to = line_end(vi + 1, ni);
+        let v_trail = triv_items(&toks[vi + 1..vt_to]);
+        let (p_lead, p_trail) = if has_sep {
+            let after = (ni + 1..toks.len()).find(|&k| significant(&toks[k])).unwrap_or(toks.len());
+            (triv_items(&toks[vt_to..ni]), triv_items(&toks[ni + 1..line_end(ni + 1, after)]))
+        } else {
+            // comments between the argument's line and `)` belong to the closing parenthesis
+            if toks[vt_to..ni].iter().any(|t| !matches!(t.token_type(), TokenType::Whitespace { .. })) {
+                return sink;
+            }
+            ("-".to_string(), "-".to_string())
+        };
+        if let Outcome::Ok(out) = fmt(&src, c, None, false) {
+            let eol = if crlf { "\r\n" } else { "\n" };
+            // a lone argument followed only by block comments stays on one line: the multi-line formatter did not run
+            if !out.starts_with(&format!("callee_name({}", eol)) {
+                return sink;
+            }
+            let a = match out.find("value_name") { Some(p) => p + "value_name".len(), None => return sink };
+            let next = if has_sep { "\tsecond_argument" } else { ")" };
+            let b = match out.rfind(&format!("{}{}", next, eol)) { Some(p) => p, None => return sink };
+            if a > b {
+                return sink;
+            }
+            sink.q(
+                format!("callarg {} {} {} {} {} {}", if crlf { "crlf" } else { "lf" }, hex(b"\t"), v_trail, has_sep as u8, p_lead, p_trail),
+                { let s = &out[a..b]; if s.is_empty() { "-".to_string() } else { hex(s.as_bytes()) } },
+            );
+        }
+        sink
+    });
+    let mut sink = Sink::default();
+    for s in parts {
+        sink.merge(s);
+    }
+    sink.s(json!({"c03_callarg": {"generated": n}}));
+    sink
+}
